@@ -39,7 +39,11 @@ theorem rel_transfer {w w' : WM} {iss : List Handle} {s : WS} (hi : Inv ⟨w, is
       · rintro ⟨h, hm, hv, ho⟩; exact ⟨h, hm, (hval h hm).trans hv, ho⟩
       · rintro ⟨h, hm, hv, ho⟩; exact ⟨h, hm, (hval h hm).symm.trans hv, ho⟩
     markedLt := hr.markedLt
-    markedNodup := hr.markedNodup }
+    markedNodup := hr.markedNodup
+    markedOld := by
+      intro o ho h hh
+      show h ∉ createHandles w'.buffers
+      rw [hbuf]; exact hr.markedOld o ho h hh }
 
 theorem unlocked_depth {w : WM} (hl : w.isLocked = false) : w.lockDepth = 0 := by
   cases h : w.lockDepth with
